@@ -47,9 +47,29 @@ def tlc_access(consts, invariants, properties=(), view="AView", emit_file=None, 
     return r
 
 
+def _startup_replay(binary, tier, seed, replay_path, kind):
+    from checks_steps import startup_run
+    runs, viol, cov = startup_run(binary, tier, seed, only=json.load(open(replay_path))["case"]["behaviour"], kinds=(kind,))
+    return {"violations": viol, "known": [], "notes": [], "level": "model_checking", "coverage": {"states": 1, "transitions": 1, "traces_validated_against_impl": 1, "samples": ["startup"]}, "assumptions": []}
+
+
+def _with_startup(v, binary, tier, seed, kind, prop):
+    """Startup.tla: what the property's table holds survives a start on a database of ANY schema version."""
+    from checks_steps import startup_run
+    sruns, sviol, scov = startup_run(binary, tier, seed, kinds=(kind,))
+    v["coverage"]["startup"] = scov
+    v["coverage"]["states"] += sum(r.distinct for r in sruns)
+    v["coverage"]["transitions"] += sum(r.generated for r in sruns)
+    v["coverage"]["traces_validated_against_impl"] += scov["behaviours"]
+    v["violations"] += sviol
+    return v
+
+
 def c10(tier, seed, replay_path=None):
     binary = fc.build()
     env = {"VERIF_WS": "1" if tier == "thorough" else os.environ.get("VERIF_WS", "0")}
+    if replay_path and json.load(open(replay_path))["case"].get("family") == "startup":
+        return _startup_replay(binary, tier, seed, replay_path, "startup-token")
     if replay_path:
         payload = json.load(open(replay_path))
         p = os.path.join(c.sub("replay"), "one.jsonl")
@@ -94,10 +114,11 @@ def c10(tier, seed, replay_path=None):
     st = agg["stats"]
     if st.get("op:create", 0) == 0 or st.get("op:revoke", 0) == 0 or st.get("op:restart", 0) == 0 or st.get("op:rotate", 0) == 0:
         raise c.Infra("vacuous run: %s" % dict(st))
-    return simple_verdict("C10", agg, runs, {"generation": gen, "exhaustive": tier != "quick",
+    return _with_startup(simple_verdict("C10", agg, runs, {"generation": gen, "exhaustive": tier != "quick",
                                              "rule": "every sequence of create(as admin|former or future admin|user|unknown|admin-prefix) / revoke(as admin|user|admin+suffix, any token incl. unknown, admin, "
                                                      "already revoked) / restart / rotation of the configured admin token, of the given length from Access.tla (simulated beyond); after EVERY step "
-                                                     "EVERY token (both admin tokens, issued, revoked, never issued, a proper prefix and an extension of the admin token) is presented on two routes"})
+                                                     "EVERY token (both admin tokens, issued, revoked, never issued, a proper prefix and an extension of the admin token) is presented on two routes"}),
+                         binary, tier, seed, "startup-token", "C10")
 
 
 def c09(tier, seed, replay_path=None):
@@ -138,6 +159,8 @@ def tlc_webhooks(consts, invariants, properties=(), view="WView", emit_file=None
 
 def c12(tier, seed, replay_path=None):
     binary = fc.build()
+    if replay_path and json.load(open(replay_path))["case"].get("family") == "startup":
+        return _startup_replay(binary, tier, seed, replay_path, "startup-webhook")
     if replay_path:
         payload = json.load(open(replay_path))
         p = os.path.join(c.sub("replay"), "one.jsonl")
@@ -187,9 +210,10 @@ def c12(tier, seed, replay_path=None):
     st = agg["stats"]
     if st.get("op:notify", 0) == 0 or st.get("op:register", 0) == 0 or st.get("op:restart", 0) == 0:
         raise c.Infra("vacuous run: %s" % dict(st))
-    return simple_verdict("C12", agg, runs, {"generation": gen, "exhaustive": tier != "quick",
+    return _with_startup(simple_verdict("C12", agg, runs, {"generation": gen, "exhaustive": tier != "quick",
                           "rule": "every sequence of register(bearer|custom|none) / delete / notify(outcome per called hook in 200, 500, transport error, unreadable body) / restart "
-                                  "over two urls from Webhooks.tla (exhaustive to depth 4-5, simulated to depth 12-24); after EVERY operation GET /webhook?url= of every url is compared"})
+                                  "over two urls from Webhooks.tla (exhaustive to depth 4-5, simulated to depth 12-24); after EVERY operation GET /webhook?url= of every url is compared"}),
+                         binary, tier, seed, "startup-webhook", "C12")
 
 
 def c16(tier, seed, replay_path=None):
